@@ -70,6 +70,10 @@ def run(tier):
         f, fl, leaves = _gssvx.leaves_for(_pg, _eff, p, ilu=False, tier='quick', split=('Fact', 'ConditionNumber', 'PivotGrowth', 'info', 'A.Stype', 'Trans'))
         ctx = _expert.Ctx(_pg, f, fl, p, False)
         _expert.run_leaf_groups(chk, 'C09', ctx, leaves, ('cond',), 'tested')
+    # a shifted block that is not copied completely leaves whatever the caller's buffer held before in the factors: hidden input
+    from ..rules import expand as _expand
+    chk.clause('C09.bcopy', 'the in-place shift of the caller workspace copies every byte of the block (no residue of earlier contents)')
+    _expand.bcopy_rule(chk, 'C09.bcopy', _pg, 'tested')
     from ..rules import misc as _misc
     chk.clause('R1.vii', 'output-only arguments do not steer the computation (usepr only for SamePattern_SameRowPerm)')
     _ps = Program.load(which=('SRC',), cfg='tested')
